@@ -145,6 +145,14 @@ def run(ctx):
             env['LBZIP2_VERIF_IN_GRANUL'] = str(rnd.choice([1024, 4096, 16384]))
         cs.append(dict(kind='decompress', name='follower-big' if big else 'follower', stdin=data, w=w, env=env,
                        argv=(lambda lb, w=w: [lb, '-d', '-n', str(w)]), expect_rc=0, expect_out=plain))
+    with open(os.path.join(core.ROOT, 'witness', 'f3_flood_251_candidates.bz2'), 'rb') as f:
+        f3 = f.read()
+    f3out = ora.refbz(f3)[2]
+    for i in range(16 if q else 300):
+        w = rnd.choice([2, 3, 4, 8])
+        cs.append(dict(kind='decompress', name='flood-f3', stdin=f3, w=w,
+                       env={'LBZIP2_VERIF_SCHED': '%d:jitter' % rnd.randrange(1, 1 << 30), 'LBZIP2_VERIF_IN_GRANUL': '64'},
+                       argv=(lambda lb, w=w: [lb, '-d', '-n', str(w)]), expect_rc=0, expect_out=f3out))
     # failing decompression: trace is a prefix, order must still hold
     for i in range(20 if q else 600):
         data, plain = rnd.choice(comps[:10])
